@@ -51,6 +51,9 @@ class ExprMixin:
     def lookup_name(self, name, st, node=None):
         if name in st.env:
             return st.env[name]
+        cdef = st.env.get('$classdef')
+        if cdef is not None and name in cdef.assigns and st.env.get('$evaluating') != name:
+            return self.class_attr(cdef, name, st)[0].val
         mod = st.env.get('$mod') or st.ghost.get('module')
         if mod is not None:
             try:
@@ -522,6 +525,8 @@ class ExprMixin:
 
     def contains(self, container, item, st, line):
         item_u = item
+        if isinstance(container, Opt):
+            container = self.unwrap_opt(container, st, 'in', line)
         if isinstance(container, tuple) and len(container) == 2 and (isinstance(container[0], str) and container[0] == 'frozenlist'):
             container = container[1]
         if isinstance(container, tuple):
@@ -544,6 +549,8 @@ class ExprMixin:
             return z3.Bool(fresh_name('in_resp'))
         else:
             raise EngineError(f'in on {type(container).__name__} at line {line}')
+        if is_sym(item_u) and z3.is_string(item_u):
+            items = [x for x in items if isinstance(x, str) or (is_sym(x) and z3.is_string(x))]
         cs = [self.value_eq(item_u, x, st) for x in items]
         if all(isinstance(c, bool) for c in cs):
             return any(cs)
